@@ -749,6 +749,104 @@ def run(ctx: Ctx):
                     return False
         return True
 
+    # ---------------------------------------------------------------- 1b. histories on RETURNED arrays and on argument arrays:
+    #      the caller owns what it gets back.  Editing a returned order table / moment matrix in place, or editing the
+    #      function-value / centre arrays in place between calls, must not change what a later call returns for the then
+    #      current arguments (every call is judged by the same independent enumeration / direct quadrature).
+    from grid.basegrid import Grid as _G
+    from grid.utils import generate_orders_horton_order as _gen
+
+    def scribble(a):
+        """Edit an array in place; False if it is write-protected (then nothing can leak through it)."""
+        try:
+            if a.size:
+                a[...] = a[::-1].copy() if a.ndim else a
+                a += 3
+            return True
+        except (ValueError, TypeError):
+            return False
+
+    for ty in TYPES:
+        for dim in (1, 2, 3):
+            for L in range(0, 5):
+                if ty == "pure-radial" and L == 0:
+                    continue
+                if L in bad_orders.get((ty, dim), ()):
+                    continue  # already reported as a single-call failure
+                forms = [("g(L, ty, dim)", lambda: _gen(L, ty, dim)), ("g(L, ty, dim=dim)", lambda: _gen(L, ty, dim=dim)),
+                         ("g(order=L, type_ord=ty, dim=dim)", lambda: _gen(order=L, type_ord=ty, dim=dim))]
+                if dim == 3:
+                    forms.append(("g(L, ty)", lambda: _gen(L, ty)))
+                exp = spec_orders(ty, dim, L)
+                exp = exp[0] if ty == "radial" else exp
+                for fname, form in forms:
+                    ctx.case(("orders-history", ty, dim, L, fname))
+                    try:
+                        t1 = form()
+                        first = np.asarray(t1).tolist()
+                        wrote = scribble(t1)
+                        t2 = form()
+                        obs = np.asarray(t2).tolist()
+                    except Exception as e:  # noqa: BLE001
+                        first, wrote, obs = None, False, type(e).__name__
+                    if first is not None and first != exp:
+                        obs = first
+                    if obs != exp:
+                        report(f"orders_{ty.replace('-', '_')}_spec", f"orders-history:{ty}:dim={dim}:L={L}:{fname}", str(obs),
+                               f"t = {fname} with (L, ty, dim) = ({L}, '{ty}', {dim}); t is edited in place (reversed, += 3); the next {fname} "
+                               f"returns {obs}; documented order list is {exp}",
+                               {"reproduce": f"from grid.utils import generate_orders_horton_order as g; t = {fname}; t[...] = t[::-1].copy(); t += 3; {fname}",
+                                "L": L, "ty": ty, "dim": dim, "expected": exp})
+    ctx.count("orders-history forms", 4)
+    nali = 24 if quick else 120
+    for k in range(nali):
+        ty = TYPES[k % 4]
+        dim = 3 if ty in ("pure", "pure-radial") else [3, 2, 1][(k // 4) % 3]
+        L = (k // 4) % 3 if ty != "pure-radial" else 1 + (k // 4) % 3     # includes L = 0: a single table, no stacking
+        npt = rng.randint(2, 6)
+        pts = [[rng.randint(-8, 8) / 4.0 for _ in range(dim)] for _ in range(npt)]
+        w = [rng.choice([0.25, 0.5, 0.75, 1.25]) for _ in range(npt)]
+        C = np.array([[rng.randint(-6, 6) / 4.0 for _ in range(dim)] for _ in range(1 + k % 3)])
+        fa = np.array([(rng.randint(-12, 12) or 5) / 8.0 for _ in range(npt)])
+        hist = []
+        extra = {"history": hist, "reproduce": "replay `history` on one Grid(points, weights): moments calls use the SAME func_vals / centers array "
+                                               "objects, which are edited in place between calls as listed; returned arrays are edited in place too"}
+        g = _G(np.array(pts), np.array(w))
+
+        def call(tag):
+            hist.append({"op": "moments", "type": ty, "orders": L, "centers": C.tolist(), "func_vals": fa.tolist()})
+            try:
+                m, o = g.moments(L, C, fa, ty, return_orders=True)
+                res = (np.asarray(m), np.asarray(o))
+            except Exception as e:  # noqa: BLE001
+                return None, ("crash", type(e).__name__)
+            ok = check_property(ty, dim, L, pts, w, C.tolist(), fa.tolist(), res, False, f"aliasing:{tag}#{k}", "float64", "plain",
+                                dict(extra, history=[dict(h) for h in hist]))
+            ctx.case(("aliasing", ty, dim, L, tag, k))
+            ctx.count(f"aliasing:{ty}")
+            return ok, (m, o)
+
+        ok, out = call("first")
+        if not ok:
+            continue
+        # edit everything that was returned, and tables obtained from the public helper, in place
+        wrote = [scribble(np.asarray(out[0])), scribble(np.asarray(out[1]))]
+        for l in (range(1, L + 1) if ty == "pure-radial" else range(0, L + 1)):
+            try:
+                wrote.append(scribble(np.asarray(_gen(l, ty, dim))))
+            except Exception:  # noqa: BLE001
+                pass
+        hist.append({"op": "returned matrix, returned order array and generate_orders_horton_order(l, type, dim) tables edited in place", "writable": wrote})
+        ok, out = call("after-editing-returned-arrays")
+        if not ok:
+            continue
+        # edit the argument arrays in place: the next call must follow the new values
+        fa *= -2.0
+        fa += 0.125
+        C += 0.25
+        hist.append({"op": "func_vals *= -2; func_vals += 0.125; centers += 0.25 (in place, same array objects)"})
+        call("after-editing-arguments")
+
     # ---------------------------------------------------------------- 2. Cartesian moments on integer grids: exact (Z)
     cases, meta = [], []
     ncart = 160 if quick else 4000
@@ -1321,7 +1419,9 @@ def run(ctx: Ctx):
                        "(prime sizes 1e3..1.2e6, rows*dim*points up to 1.2e7 quick / 3e7 thorough, all types, function of order one at every "
                        "point and the indicator of the last point; dipole on 360007 points) against a vectorised row-by-row direct quadrature; "
                        "coordinate frames: a share of all case families is translated far from the origin (integer offsets 2^10..2^22 per "
-                       "coordinate applied to points and centres alike, exact for the dyadic families) or rescaled by 2^-12..2^11" % (LMAX_ORD, 6 if quick else 9))
+                       "coordinate applied to points and centres alike, exact for the dyadic families) or rescaled by 2^-12..2^11; aliasing "
+                       "histories: returned order tables / moment matrices and tables from generate_orders_horton_order (all call spellings) "
+                       "are edited in place, then the same request is repeated; function values and centres edited in place between calls" % (LMAX_ORD, 6 if quick else 9))
     ctx.trusted += [
         "py2coq/int translator OrdersTranslator (tools/props/c14.py) for generate_orders_horton_order; validated by exact correspondence on all orders 0..%d" % LMAX_ORD,
         "NumPy semantics assumed by the model vocabulary: np.array of int rows (ragged -> error, [] -> shape (0,)), np.vstack row stacking with equal widths, np.arange, np.ravel; a dtype attribute missing from the installed NumPy raises",
